@@ -52,6 +52,15 @@ def gen_cases(tier, seed):
             cfg["parts"] = [_smooth(p) for p in cfg["parts"]]
         cases.append({"kind": "flow", "cfg": cfg, "mode": "eval" if i % 2 else "train", "policy": "randn0.3",
                       "seed": env.subseed(seed, "c16f", i), "world": "f64", "tier_": tier, "cost": 5})
+    # never-initialised ActNorm whose first call is a training-mode forward (parameters collected before that call)
+    for i, shp in enumerate(([3], [2, 2, 2], [4])):
+        for wrap in (False, True):
+            cfg = {"fam": "actnorm", "shape": shp}
+            if wrap:
+                cfg = {"fam": "composite", "shape": shp, "ctx": 0, "parts": [cfg, {"fam": "lu", "shape": shp, "cache": False, "idinit": False}]} \
+                    if len(shp) == 1 else {"fam": "composite", "shape": shp, "ctx": 0, "parts": [cfg]}
+            cases.append({"kind": "transform", "cfg": cfg, "policy": "fresh", "mode": "train", "cold": True,
+                          "seed": env.subseed(seed, "c16cold", i, wrap), "world": "f64", "tier_": tier, "cost": 1})
     # the four spline functions element-wise in float32 next to float64 (2e4 points per case, many next to bin ends):
     # every element must receive an input gradient, equal to the float64 one where the float32 value itself agrees
     k = 0
@@ -153,9 +162,9 @@ def run_case(case):
     try:
         if kind == "transform":
             me = zoo.meta(cfg)
-            model = zoo.make(cfg, case["policy"], seed, mode="eval")
+            model = zoo.make(cfg, case["policy"], seed, mode="eval", do_warm=not case.get("cold"))
             label = cfg["fam"]
-            dirs = ["forward", "inverse"]
+            dirs = ["forward", "inverse"] if not case.get("cold") else ["forward"]
         elif kind == "dist":
             model = dzoo.build_dist(cfg, seed)
             label = "dist_" + cfg["dist"]
@@ -211,6 +220,15 @@ def run_case(case):
             r.count("kink_resamples")
         else:
             r.count("gave_up_on_kinks")
+    # the Parameter objects handed out before the first call must still be the module's parameters afterwards (an optimiser
+    # built before the first - possibly initialising - call keeps references to them)
+    r.ev()
+    r.count("parameter_identity_checks")
+    now = dict(model.named_parameters())
+    replaced = [n for n, p in params if now.get(n) is not p]
+    if replaced:
+        r.viol("parameter_replaced", "%s replaces its Parameter objects during a call (references held by an optimiser go stale)" % label,
+               names=replaced[:4], mode=mode, cfg=cfg)
     # finite gradients at inputs containing exact zeros (forward)
     if kind == "transform" and me["dom_in"][0] in ("R", "Rb"):
         x0 = zoo.sample_inputs(me, B, seed + 77, structured=False)
